@@ -97,9 +97,9 @@ func (c *FuncCtx) execStmt(st *State, s ast.Stmt) []outcome {
 	case *ast.IfStmt:
 		return c.execIf(st, x)
 	case *ast.ForStmt:
-		return c.execFor(st, x)
+		return c.loopExits(x, c.execFor(st, x))
 	case *ast.RangeStmt:
-		return c.execRange(st, x)
+		return c.loopExits(x, c.execRange(st, x))
 	case *ast.SwitchStmt:
 		return c.execSwitch(st, x)
 	case *ast.TypeSwitchStmt:
@@ -1068,4 +1068,29 @@ func (c *FuncCtx) decodeRune(st *State, s string) (*Val, *Val) {
 		types.NewTuple(types.NewVar(token.NoPos, nil, "r", tRune), types.NewVar(token.NoPos, nil, "n", tInt)), false)
 	rs := c.applyContract(st, con, sig, nil, []*Val{{T: tString, S: s, Sort: "String"}}, token.NoPos, "utf8.DecodeRuneInString")
 	return rs[0], rs[1]
+}
+
+// loopExits checks the "loop N exit: E" clauses: E is asserted (then assumed)
+// in every state that leaves the loop, whether the loop ran out or was left by
+// a break - an invariant alone says nothing about the latter.
+func (c *FuncCtx) loopExits(n ast.Node, outs []outcome) []outcome {
+	if c.contract == nil || c.inlineDepth > 0 {
+		return outs
+	}
+	ord := c.loopOrd[n]
+	cls := c.contract.loopClauses("exit", ord)
+	if len(cls) == 0 {
+		return outs
+	}
+	for _, o := range outs {
+		if o.kind != oNext || o.st.dead {
+			continue
+		}
+		for i, cl := range cls {
+			v := c.evalSpecAt(o.st, cl.Expr, n.End(), c.ghostEnv())
+			c.oblige(o.st, "assert", fmt.Sprintf("loop%d.exit%d", ord, i+1), n.Pos(), v.S, cl.Tags, "loop exit "+cl.Text)
+			o.st.assume(v.forAssume())
+		}
+	}
+	return outs
 }
